@@ -109,7 +109,7 @@ def pcEAk : Pc → Bool
 def CrOK (s : State) (t : Tid) : Prop :=
   (∀ i o, (s.th t).pc = .crSet i o →
     aget s.strong i = none ∧ aget s.weak i = none ∧ (∀ o', s.transit ≠ some (i, o')) ∧
-    (∀ u, gid (s.th u).pc ≠ some i) ∧ (∀ u, pcEAk (s.th u).pc = false)) ∧
+    (∀ u, gid (s.th u).pc ≠ some i) ∧ (∀ u, pcEAk (s.th u).pc = false) ∧ s.dc = true) ∧
   (∀ i, (s.th t).pc = .insert i → i ∉ s.db)
 
 /-- what the lock holder has learnt about the maps and still relies on -/
@@ -182,8 +182,8 @@ theorem aget_getElem (m : AMap) (k : Id) (v : Obj) (h : aget m k = some v) : ∃
 /-! ### `NoCreate` is preserved -/
 def thNoCreate (th : Th) : Prop := pcCreate th.pc = false ∧ ∀ op ∈ th.prog, isCreate op = false
 
-theorem pcCreate_entry (c : Bool) (op : Op) (h : isCreate op = false) : pcCreate (entry c op) = false := by
-  cases op <;> cases c <;> simp_all [entry, pcCreate, isCreate]
+theorem pcCreate_entry (dc c : Bool) (op : Op) (h : isCreate op = false) : pcCreate (entry dc c op) = false := by
+  cases op <;> cases c <;> cases dc <;> simp_all [entry, pcCreate, isCreate]
 
 theorem goto_nc (s : State) (t : Tid) (pc : Pc) (h : thNoCreate (s.th t)) (hp : pcCreate pc = false) :
     thNoCreate ((goto s t pc).th t) := by
@@ -197,7 +197,7 @@ theorem finish_nc (s : State) (t : Tid) (o : Out) (h : thNoCreate (s.th t)) : th
     simp only [setTh_self, thNoCreate]
     have h2 := h.2
     rw [he] at h2
-    exact ⟨pcCreate_entry _ _ (h2 op (by simp)), fun op' ho => h2 op' (by simp [ho])⟩
+    exact ⟨pcCreate_entry _ _ _ (h2 op (by simp)), fun op' ho => h2 op' (by simp [ho])⟩
 
 theorem releaseFinish_nc (s : State) (t : Tid) (o : Out) (h : thNoCreate (s.th t)) :
     thNoCreate ((releaseFinish s t o).th t) := by
@@ -212,7 +212,7 @@ theorem afterCC_nc (s : State) (t : Tid) (k : K) (h : thNoCreate (s.th t)) (hk :
 
 theorem afterCaches_nc (s : State) (t : Tid) (k : K) (h : thNoCreate (s.th t)) (hk : pcCreate (.ccTest k) = false) :
     thNoCreate ((afterCaches s t k).th t) := by
-  cases k <;> simp only [afterCaches] <;>
+  cases k <;> simp only [afterCaches] <;> (try split) <;>
     first | exact goto_nc _ _ _ h rfl | simp [pcCreate] at hk
 
 theorem pcCreate_cuWeakNext (k : K) (ks : List Id) : pcCreate (cuWeakNext k ks) = pcCreate (.ccTest k) := by
@@ -242,16 +242,30 @@ theorem nocreate_step (s s' : State) (t : Tid) (h : NoCreate s) (hs : step s t =
 
 /-! ### effects on the maps -/
 theorem nonholder_effect2 (s s' : State) (t : Tid) (hs : step s t = some s') (hh : holds (s.th t).pc = false) :
+    s'.stale = s.stale ∧ s'.transit = s.transit ∧
+    ((s'.weak = s.weak ∧ (s'.strong = s.strong ∨ ∃ i o, (s.th t).pc = .crSet i o ∧ s'.strong = aset s.strong i o)) ∨
+     (∃ i o, (s.th t).pc = .crSet i o ∧ s.dc = false)) := by
+  step_cases <;> simp only [hpc, holds] at hh <;> simp_all <;> exact Or.inr ⟨_, _, ⟨rfl, rfl⟩, rfl⟩
+
+/-- with `CrOK` (a lock-free `created` only runs with doCache = True) `expiredCache` is left alone -/
+theorem nonholder_effect3 (s s' : State) (t : Tid) (hn : CrOK s t) (hs : step s t = some s')
+    (hh : holds (s.th t).pc = false) :
     s'.weak = s.weak ∧ s'.stale = s.stale ∧ s'.transit = s.transit ∧
     (s'.strong = s.strong ∨ ∃ i o, (s.th t).pc = .crSet i o ∧ s'.strong = aset s.strong i o) := by
-  step_cases <;> simp only [hpc, holds] at hh <;> simp_all <;> exact Or.inr ⟨_, _, ⟨rfl, rfl⟩, rfl⟩
+  obtain ⟨e3, e4, e⟩ := nonholder_effect2 s s' t hs hh
+  rcases e with ⟨e2, e1⟩ | ⟨i, o, hp, hd⟩
+  · exact ⟨e2, e3, e4, e1⟩
+  · have := (hn.1 i o hp).2.2.2.2.2; simp [hd] at this
 
 /-- … and to `refs` it only adds an instance that is in `cache`, or a brand new one -/
 theorem nonholder_refs (s s' : State) (t : Tid) (hs : step s t = some s') (hh : holds (s.th t).pc = false) :
-    s'.pins = s.pins ∧ ∀ o, o ∈ s'.refs → o ∈ s.refs ∨ o ∈ avals s.strong ∨ o = s.fresh := by
+    s'.pins = s.pins ∧ ∀ o, o ∈ s'.refs → o ∈ s.refs ∨ o ∈ s.pins ∨ o ∈ avals s.strong ∨ o = s.fresh := by
   step_cases <;> simp only [hpc, holds] at hh <;> simp <;>
     (try (intro o ho; rcases ho with ho | ho)) <;> simp_all <;>
-    first | exact Or.inr (Or.inl (mem_avals_of_aget _ _ _ ‹_›)) | skip
+    first
+    | exact Or.inr (Or.inr (Or.inl (mem_avals_of_aget _ _ _ ‹_›)))
+    | (have := (alive_iff s _).1 ‹_›; grind)
+    | skip
 
 theorem crok_of_nocreate (s : State) (t : Tid) (hn : NoCreate s) : CrOK s t := by
   have h := (hn t).1
@@ -262,18 +276,18 @@ theorem crok_of_nocreate (s : State) (t : Tid) (hn : NoCreate s) : CrOK s t := b
 theorem trPc_holds (pc : Pc) (x : Id × Obj) (h : trPc pc = some x) : holds pc = true := by
   cases pc <;> simp_all [trPc, holds]
 
-theorem livePc_entry (c : Bool) (op : Op) : livePc (entry c op) = none := by
-  cases op <;> cases c <;> rfl
+theorem livePc_entry (dc c : Bool) (op : Op) : livePc (entry dc c op) = none := by
+  cases op <;> cases c <;> cases dc <;> rfl
 theorem livePc_finish (s : State) (t : Tid) (o : Out) : livePc ((finish s t o).th t).pc = none := by
   unfold finish; split
   · simp only [setTh_self]; rfl
-  · simp only [setTh_self]; exact livePc_entry _ _
+  · simp only [setTh_self]; exact livePc_entry _ _ _
 theorem livePc_releaseFinish (s : State) (t : Tid) (o : Out) : livePc ((releaseFinish s t o).th t).pc = none := by
   unfold releaseFinish; split <;> exact livePc_finish _ _ _
 theorem livePc_afterCC (s : State) (t : Tid) (k : K) : livePc ((afterCC s t k).th t).pc = none := by
   cases k <;> simp only [afterCC, goto_pc_self, livePc_finish] <;> rfl
 theorem livePc_afterCaches (s : State) (t : Tid) (k : K) : livePc ((afterCaches s t k).th t).pc = none := by
-  cases k <;> simp only [afterCaches, goto_pc_self] <;> rfl
+  cases k <;> simp only [afterCaches] <;> (try split) <;> simp only [goto_pc_self] <;> rfl
 
 /-- what a lock holder knows survives the lock-free steps of the other threads: `expiredCache` untouched,
     `cache` at most extended at an id nobody has probed (outside any iteration) by an instance its creator
@@ -281,7 +295,7 @@ theorem livePc_afterCaches (s : State) (t : Tid) (k : K) : livePc ((afterCaches 
 theorem know_stable (s s' : State) (pc : Pc) (hw : s'.weak = s.weak) (hp : s'.pins = s.pins)
     (hst : s'.strong = s.strong ∨ ∃ i o, s'.strong = aset s.strong i o ∧ aget s.strong i = none ∧
       gid pc ≠ some i ∧ pcEAk pc = false ∧ o ∈ s.refs)
-    (hrefs : ∀ o, o ∈ s'.refs → o ∈ s.refs ∨ o ∈ avals s.strong ∨ o = s.fresh)
+    (hrefs : ∀ o, o ∈ s'.refs → o ∈ s.refs ∨ o ∈ s.pins ∨ o ∈ avals s.strong ∨ o = s.fresh)
     (hwb : ∀ o ∈ avals s.weak, o < s.fresh)
     (h : know s pc) : know s' pc := by
   have hal : ∀ (k : Id) (o : Obj), aget s.weak k = some o → alive s o = false → alive s' o = false := by
@@ -295,8 +309,9 @@ theorem know_stable (s s' : State) (pc : Pc) (hw : s'.weak = s.weak) (hp : s'.pi
         intro h'; rw [← alive_iff] at h'; simp [hd] at h'
       rw [alive_iff, hp] at hx
       rcases hx with hx | hx | hx
-      · rcases hrefs o hx with h1 | h1 | h1
+      · rcases hrefs o hx with h1 | h1 | h1 | h1
         · exact hd' (Or.inl h1)
+        · exact hd' (Or.inr (Or.inl h1))
         · exact hd' (Or.inr (Or.inr h1))
         · rw [h1] at hlt; exact Nat.lt_irrefl _ hlt
       · exact hd' (Or.inr (Or.inl hx))
@@ -351,7 +366,7 @@ theorem not_aliveIn (refs pins : List Obj) (m : AMap) (o : Obj) (h : ¬ aliveIn 
 theorem reach_step (s s' : State) (t : Tid) (ha : AInv s) (hb : BInv s) (hn : CrOK s t)
     (hs : step s t = some s') (i : Id) (o : Obj) (hr : Reach s i o) (hal : Held s o) : Reach s' i o := by
   cases hh : holds (s.th t).pc
-  · obtain ⟨e2, e3, e4, e1⟩ := nonholder_effect2 s s' t hs hh
+  · obtain ⟨e2, e3, e4, e1⟩ := nonholder_effect3 s s' t hn hs hh
     unfold Reach at *; rw [e2, e3, e4]
     rcases e1 with e1 | ⟨i', o', hp, e1⟩ <;> rw [e1]
     · exact hr
@@ -391,12 +406,13 @@ theorem afterCC_outs_self (s : State) (t : Tid) (k : K) :
   cases k <;> simp [afterCC, finish_outs_self]
 @[simp] theorem afterCaches_outs_self (s : State) (t : Tid) (k : K) :
     ((afterCaches s t k).th t).outs = (s.th t).outs := by
-  cases k <;> simp [afterCaches]
+  cases k <;> simp only [afterCaches] <;> (try split) <;> simp
 
 theorem outs_effect (s s' : State) (t : Tid) (hs : step s t = some s') (i : Id) (o : Obj)
     (h : Out.obj i o ∈ (s'.th t).outs) :
     Out.obj i o ∈ (s.th t).outs ∨ ((s.th t).pc = .probe i ∧ aget s.strong i = some o) ∨
-      livePc (s.th t).pc = some (i, o) := by
+      livePc (s.th t).pc = some (i, o) ∨
+      ((s.th t).pc = .nProbe i ∧ aget s.weak i = some o ∧ alive s o = true) := by
   step_cases <;> simp only [hpc, livePc] <;>
     (try (rcases releaseFinish_outs_self _ t _ with e | e <;> rw [e] at h)) <;>
     (try (rcases afterCC_outs_self _ t _ with e | e <;> rw [e] at h)) <;>
@@ -412,7 +428,7 @@ theorem know_cuStrongNext (s : State) (k : K) (l : List Id) : know s (cuStrongNe
 theorem binv_uniq (s s' : State) (t : Tid) (ha : AInv s) (hb : BInv s) (hn : CrOK s t)
     (hs : step s t = some s') : ∀ i o p, aget s'.strong i = some o → aget s'.weak i = some p → o = p := by
   cases hh : holds (s.th t).pc
-  · obtain ⟨e2, _, _, e1⟩ := nonholder_effect2 s s' t hs hh
+  · obtain ⟨e2, _, _, e1⟩ := nonholder_effect3 s s' t hn hs hh
     rw [e2]
     rcases e1 with e1 | ⟨i', o', hp, e1⟩ <;> rw [e1]
     · exact hb.uniq
@@ -428,13 +444,124 @@ theorem binv_uniq (s s' : State) (t : Tid) (ha : AInv s) (hb : BInv s) (hn : CrO
     step_cases <;> simp only [hpc, holds] at hh <;> (try cases hh) <;> simp only [hpc, know, trPc] at hk htn ht2 <;>
       simp <;> grind [aget_aset, aget_adel, aget_nil]
 
-theorem binv_know_self (s s' : State) (t : Tid) (ha : AInv s) (hb : BInv s)
+/-! ### the two modes: with doCache = False `cache` stays empty -/
+/-- pcs of the doCache = False path of `get` -/
+def pcNc : Pc → Bool
+  | .nProbe _ | .nAcq _ | .nRelook _ => true
+  | _ => false
+
+/-- pcs of the doCache = True path of `get` (the only ones that lead to a `cache[id] = val` not guarded by `dc`) -/
+def pcDc : Pc → Bool
+  | .probe _ | .acq _ | .relook _ | .weakGet _ | .weakDel _ _ | .strongSet _ _ => true
+  | .ccTest k | .ccRead k | .ccWrite k _ | .ccReset k | .cuAcq k | .cuWeakKeys k
+  | .cuWeakChk k _ | .cuStrongKeys k | .cuStrongGet k _ _ | .cuStrongDel k _ _ _ | .cuWeakSet k _ _ _ | .cuRel k
+  | .cuWeakPop k _ _ _ =>
+    match k with
+    | .get _ => true
+    | _ => false
+  | _ => false
+
+structure MdInv (s : State) : Prop where
+  nostrong : s.dc = false → s.strong = []
+  dcpc : ∀ t, pcDc (s.th t).pc = true → s.dc = true
+  ncpc : ∀ t, pcNc (s.th t).pc = true → s.dc = false
+
+theorem pcDc_entry (dc c : Bool) (op : Op) (h : pcDc (entry dc c op) = true) : dc = true := by
+  cases op <;> cases c <;> cases dc <;> simp_all [entry, pcDc]
+theorem pcNc_entry (dc c : Bool) (op : Op) (h : pcNc (entry dc c op) = true) : dc = false := by
+  cases op <;> cases c <;> cases dc <;> simp_all [entry, pcNc]
+theorem pcDc_finish (s : State) (t : Tid) (o : Out) (h : pcDc ((finish s t o).th t).pc = true) : s.dc = true := by
+  unfold finish at h; split at h
+  · simp [pcDc] at h
+  · simp only [setTh_self] at h; exact pcDc_entry _ _ _ h
+theorem pcNc_finish (s : State) (t : Tid) (o : Out) (h : pcNc ((finish s t o).th t).pc = true) : s.dc = false := by
+  unfold finish at h; split at h
+  · simp [pcNc] at h
+  · simp only [setTh_self] at h; exact pcNc_entry _ _ _ h
+theorem pcDc_cuWeakNext (k : K) (l : List Id) : pcDc (cuWeakNext k l) = pcDc (.ccTest k) := by cases l <;> rfl
+theorem pcDc_cuStrongNext (k : K) (l : List Id) : pcDc (cuStrongNext k l) = pcDc (.ccTest k) := by cases l <;> rfl
+theorem pcNc_cuWeakNext (k : K) (l : List Id) : pcNc (cuWeakNext k l) = false := by cases l <;> rfl
+theorem pcNc_cuStrongNext (k : K) (l : List Id) : pcNc (cuStrongNext k l) = false := by cases l <;> rfl
+
+theorem dc_step (s s' : State) (t : Tid) (hs : step s t = some s') : s'.dc = s.dc := by
+  step_cases <;> simp
+
+theorem pcDc_afterCC (s : State) (t : Tid) (k : K) (h : pcDc ((afterCC s t k).th t).pc = true) :
+    pcDc (.ccTest k) = true ∨ s.dc = true := by
+  cases k <;> simp only [afterCC] at h <;>
+    first
+    | exact Or.inr (pcDc_finish _ _ _ h)
+    | (simp only [goto_pc_self] at h; simp_all [pcDc])
+theorem pcDc_afterCaches (s : State) (t : Tid) (k : K) (h : pcDc ((afterCaches s t k).th t).pc = true) :
+    s.dc = true := by
+  cases k <;> simp only [afterCaches] at h <;> (try split at h) <;> simp_all [pcDc]
+theorem pcNc_afterCC (s : State) (t : Tid) (k : K) (h : pcNc ((afterCC s t k).th t).pc = true) : s.dc = false := by
+  cases k <;> simp only [afterCC] at h <;>
+    first
+    | exact pcNc_finish _ _ _ h
+    | (simp only [goto_pc_self] at h; simp_all [pcNc])
+theorem pcNc_afterCaches (s : State) (t : Tid) (k : K) (h : pcNc ((afterCaches s t k).th t).pc = true) :
+    s.dc = false := by
+  cases k <;> simp only [afterCaches] at h <;> (try split at h) <;> simp_all [pcNc]
+theorem pcDc_releaseFinish (s : State) (t : Tid) (o : Out) (h : pcDc ((releaseFinish s t o).th t).pc = true) :
+    s.dc = true := by
+  unfold releaseFinish at h; split at h
+  · exact pcDc_finish _ _ _ h
+  · exact pcDc_finish { s with lock := none } t o h
+theorem pcNc_releaseFinish (s : State) (t : Tid) (o : Out) (h : pcNc ((releaseFinish s t o).th t).pc = true) :
+    s.dc = false := by
+  unfold releaseFinish at h; split at h
+  · exact pcNc_finish _ _ _ h
+  · exact pcNc_finish { s with lock := none } t o h
+
+set_option maxHeartbeats 1600000 in
+theorem mdinv_step (s s' : State) (t : Tid) (hm : MdInv s) (hs : step s t = some s') : MdInv s' := by
+  have hd := dc_step s s' t hs
+  have h1 := hm.nostrong
+  have h2 := hm.dcpc t
+  have h3 := hm.ncpc t
+  refine ⟨?_, ?_, ?_⟩
+  · rw [hd]
+    step_cases <;> simp only [hpc, pcDc, pcNc] at h2 h3 <;> simp_all [adel]
+  · intro u
+    by_cases hu : u = t
+    · subst hu
+      rw [hd]
+      intro h
+      step_cases <;> simp only [hpc, pcDc, pcNc] at h2 h3 <;>
+        first
+        | (have h' := pcDc_finish _ _ _ h; simpa using h')
+        | (have h' := pcDc_releaseFinish _ _ _ h; simpa using h')
+        | (have h' := pcDc_afterCaches _ _ _ h; simpa using h')
+        | (have h0 := pcDc_afterCC _ _ _ h
+           rcases h0 with h' | h'
+           · exact h2 (by simpa [pcDc] using h')
+           · simpa using h')
+        | ((try simp only [goto_pc_self, pcDc_cuWeakNext, pcDc_cuStrongNext] at h); simp_all [pcDc]; done)
+    · rw [step_th_ne s s' t u hs hu, hd]; exact hm.dcpc u
+  · intro u
+    by_cases hu : u = t
+    · subst hu
+      rw [hd]
+      intro h
+      step_cases <;> simp only [hpc, pcDc, pcNc] at h2 h3 <;>
+        first
+        | (have h' := pcNc_finish _ _ _ h; simpa using h')
+        | (have h' := pcNc_releaseFinish _ _ _ h; simpa using h')
+        | (have h' := pcNc_afterCaches _ _ _ h; simpa using h')
+        | (have h' := pcNc_afterCC _ _ _ h; simpa using h')
+        | ((try simp only [goto_pc_self, pcNc_cuWeakNext, pcNc_cuStrongNext] at h); simp_all [pcNc]; done)
+    · rw [step_th_ne s s' t u hs hu, hd]; exact hm.ncpc u
+
+theorem binv_know_self (s s' : State) (t : Tid) (ha : AInv s) (hb : BInv s) (hm : MdInv s)
     (hs : step s t = some s') : know s' (s'.th t).pc := by
+  have hns := hm.nostrong
+  have hnc := hm.ncpc t
   have hk := hb.know t
   have hu := hb.uniq
   have hga := getElem_aget s.strong ha.skeys
   have hge := aget_getElem s.strong
-  step_cases <;> simp only [hpc, know] at hk <;>
+  step_cases <;> simp only [hpc, know, pcNc] at hk hnc <;>
     first
     | exact know_nonholds _ _ (finish_holds _ _ _)
     | exact know_nonholds _ _ (releaseFinish_holds _ _ _)
@@ -480,7 +607,7 @@ theorem binv_tr1 (s s' : State) (t : Tid) (ha : AInv s) (hb : BInv s) (hn : CrOK
     aget s'.strong i = none ∧ (aget s'.weak i = none ∨ aget s'.weak i = some o) ∧
       ∃ t', trPc (s'.th t').pc = some (i, o) := by
   cases hh : holds (s.th t).pc
-  · obtain ⟨e2, _, e4, e1⟩ := nonholder_effect2 s s' t hs hh
+  · obtain ⟨e2, _, e4, e1⟩ := nonholder_effect3 s s' t hn hs hh
     rw [e4] at htr
     obtain ⟨h1, h2, t', h3⟩ := hb.tr1 i o htr
     rw [e2]
@@ -526,18 +653,18 @@ structure FInv (s : State) : Prop where
 theorem fresh_mono (s s' : State) (t : Tid) (hs : step s t = some s') : s.fresh ≤ s'.fresh := by
   step_cases <;> simp
 
-theorem pcObjs_entry (c : Bool) (op : Op) : pcObjs (entry c op) = [] := by
-  cases op <;> cases c <;> rfl
+theorem pcObjs_entry (dc c : Bool) (op : Op) : pcObjs (entry dc c op) = [] := by
+  cases op <;> cases c <;> cases dc <;> rfl
 theorem pcObjs_finish (s : State) (t : Tid) (o : Out) : pcObjs ((finish s t o).th t).pc = [] := by
   unfold finish; split
   · simp only [setTh_self]; rfl
-  · simp only [setTh_self]; exact pcObjs_entry _ _
+  · simp only [setTh_self]; exact pcObjs_entry _ _ _
 theorem pcObjs_releaseFinish (s : State) (t : Tid) (o : Out) : pcObjs ((releaseFinish s t o).th t).pc = [] := by
   unfold releaseFinish; split <;> exact pcObjs_finish _ _ _
 theorem pcObjs_afterCC (s : State) (t : Tid) (k : K) : pcObjs ((afterCC s t k).th t).pc = kObj k := by
   cases k <;> simp only [afterCC, goto_pc_self, pcObjs_finish] <;> rfl
 theorem pcObjs_afterCaches (s : State) (t : Tid) (k : K) : pcObjs ((afterCaches s t k).th t).pc = kObj k := by
-  cases k <;> simp only [afterCaches, goto_pc_self] <;> rfl
+  cases k <;> simp only [afterCaches] <;> (try split) <;> simp only [goto_pc_self] <;> rfl
 theorem pcObjs_cuWeakNext (k : K) (l : List Id) : pcObjs (cuWeakNext k l) = kObj k := by cases l <;> rfl
 theorem pcObjs_cuStrongNext (k : K) (l : List Id) : pcObjs (cuStrongNext k l) = kObj k := by cases l <;> rfl
 
@@ -582,18 +709,18 @@ theorem probe_refs (s s' : State) (t : Tid) (hs : step s t = some s') (i : Id) (
   simp only [step, hp, hg] at hs
   injection hs with hs; subst hs; simp
 
-theorem pcRefs_entry (c : Bool) (op : Op) : pcRefs (entry c op) = [] := by
-  cases op <;> cases c <;> rfl
+theorem pcRefs_entry (dc c : Bool) (op : Op) : pcRefs (entry dc c op) = [] := by
+  cases op <;> cases c <;> cases dc <;> rfl
 theorem pcRefs_finish (s : State) (t : Tid) (o : Out) : pcRefs ((finish s t o).th t).pc = [] := by
   unfold finish; split
   · simp only [setTh_self]; rfl
-  · simp only [setTh_self]; exact pcRefs_entry _ _
+  · simp only [setTh_self]; exact pcRefs_entry _ _ _
 theorem pcRefs_releaseFinish (s : State) (t : Tid) (o : Out) : pcRefs ((releaseFinish s t o).th t).pc = [] := by
   unfold releaseFinish; split <;> exact pcRefs_finish _ _ _
 theorem pcRefs_afterCC (s : State) (t : Tid) (k : K) : pcRefs ((afterCC s t k).th t).pc = kObj k := by
   cases k <;> simp only [afterCC, goto_pc_self, pcRefs_finish] <;> rfl
 theorem pcRefs_afterCaches (s : State) (t : Tid) (k : K) : pcRefs ((afterCaches s t k).th t).pc = kObj k := by
-  cases k <;> simp only [afterCaches, goto_pc_self] <;> rfl
+  cases k <;> simp only [afterCaches] <;> (try split) <;> simp only [goto_pc_self] <;> rfl
 theorem pcRefs_cuWeakNext (k : K) (l : List Id) : pcRefs (cuWeakNext k l) = kObj k := by
   cases l <;> cases k <;> rfl
 theorem pcRefs_cuStrongNext (k : K) (l : List Id) : pcRefs (cuStrongNext k l) = kObj k := by
@@ -607,7 +734,13 @@ theorem binv_refsPc_self (s s' : State) (t : Tid) (hb : BInv s) (hs : step s t =
       pcRefs_cuWeakNext, pcRefs_cuStrongNext] <;>
     (try simp only [pcRefs]) <;> simp <;> grind [kObj]
 
-theorem binv_step (s s' : State) (t : Tid) (ha : AInv s) (hb : BInv s) (hf : FInv s) (hn : CrOK s t)
+theorem nprobe_step (s s' : State) (t : Tid) (hs : step s t = some s') (i : Id) (o : Obj)
+    (hp : (s.th t).pc = .nProbe i) (hg : aget s.weak i = some o) (hal : alive s o = true) :
+    s'.weak = s.weak ∧ o ∈ s'.refs := by
+  simp only [step, hp, hg, hal] at hs
+  injection hs with hs; subst hs; simp
+
+theorem binv_step (s s' : State) (t : Tid) (ha : AInv s) (hb : BInv s) (hf : FInv s) (hm : MdInv s) (hn : CrOK s t)
     (hs : step s t = some s') : BInv s' := by
   have ht : ∀ u, holds (s.th u).pc = true → u ≠ t → holds (s.th t).pc = false := by
     intro u hu hne
@@ -622,21 +755,21 @@ theorem binv_step (s s' : State) (t : Tid) (ha : AInv s) (hb : BInv s) (hf : FIn
     by_cases hu : u = t
     · subst hu; exact binv_tr2_self s s' u hs i o h
     · rw [step_th_ne s s' t u hs hu] at h
-      obtain ⟨_, _, e4, _⟩ := nonholder_effect2 s s' t hs (ht u (trPc_holds _ _ h) hu)
+      obtain ⟨_, _, e4, _⟩ := nonholder_effect3 s s' t hn hs (ht u (trPc_holds _ _ h) hu)
       rw [e4]; exact hb.tr2 u i o h
   · intro u
     by_cases hu : u = t
-    · subst hu; exact binv_know_self s s' u ha hb hs
+    · subst hu; exact binv_know_self s s' u ha hb hm hs
     · rw [step_th_ne s s' t u hs hu]
       cases hh : holds (s.th u).pc
       · exact know_nonholds _ _ hh
       · have hht := ht u hh hu
-        obtain ⟨e2, _, _, e1⟩ := nonholder_effect2 s s' t hs hht
+        obtain ⟨e2, _, _, e1⟩ := nonholder_effect3 s s' t hn hs hht
         obtain ⟨ep, er⟩ := nonholder_refs s s' t hs hht
         refine know_stable s s' _ e2 ep ?_ er hf.wb (hb.know u)
         rcases e1 with e1 | ⟨i', o', hp, e1⟩
         · exact Or.inl e1
-        · obtain ⟨h0, _, _, hg, he⟩ := hn.1 i' o' hp
+        · obtain ⟨h0, _, _, hg, he, _⟩ := hn.1 i' o' hp
           exact Or.inr ⟨i', o', e1, h0, hg u, he u, hb.refsPc t o' (by rw [hp]; simp [pcRefs])⟩
   · intro u i o h
     by_cases hu : u = t
@@ -646,7 +779,7 @@ theorem binv_step (s s' : State) (t : Tid) (ha : AInv s) (hb : BInv s) (hf : FIn
   · intro u i o h
     by_cases hu : u = t
     · subst hu
-      rcases outs_effect s s' u hs i o h with h | ⟨hp, hg⟩ | h
+      rcases outs_effect s s' u hs i o h with h | ⟨hp, hg⟩ | h | ⟨hp, hg, hal⟩
       · exact reach_step s s' u ha hb hn hs i o (hb.outs u i o h) (houts u i o h)
       · -- probe hit: the step itself takes the reference
         have : Reach s i o := Or.inl hg
@@ -654,6 +787,9 @@ theorem binv_step (s s' : State) (t : Tid) (ha : AInv s) (hb : BInv s) (hf : FIn
         injection hs with hs; subst hs
         unfold Reach at *; simpa using this
       · exact reach_step s s' u ha hb hn hs i o (hb.live u i o h) (hlive u i o h)
+      · -- unlocked weak probe (doCache = False) found the instance alive
+        have e := (nprobe_step s s' u hs i o hp hg hal).1
+        exact Or.inr (Or.inl (by rw [e]; exact hg))
     · rw [step_th_ne s s' t u hs hu] at h
       exact reach_step s s' t ha hb hn hs i o (hb.outs u i o h) (houts u i o h)
   · intro u
@@ -664,15 +800,17 @@ theorem binv_step (s s' : State) (t : Tid) (ha : AInv s) (hb : BInv s) (hf : FIn
   · intro u i o h
     by_cases hu : u = t
     · subst hu
-      rcases outs_effect s s' u hs i o h with h | ⟨hp, hg⟩ | h
+      rcases outs_effect s s' u hs i o h with h | ⟨hp, hg⟩ | h | ⟨hp, hg, hal⟩
       · exact refs_mono s s' u hs o (hb.refsOuts u i o h)
       · exact probe_refs s s' u hs i o hp hg
       · exact refs_mono s s' u hs o (hb.refsPc u o (livePc_pcRefs _ i o h))
+      · exact (nprobe_step s s' u hs i o hp hg hal).2
     · rw [step_th_ne s s' t u hs hu] at h
       exact refs_mono s s' t hs o (hb.refsOuts u i o h)
 
 /-- all layers along a schedule (programs without create) -/
-theorem inv_run (s : State) (sched : List Tid) (ha : AInv s) (hb : BInv s) (hf : FInv s) (hn : NoCreate s) :
+theorem inv_run (s : State) (sched : List Tid) (ha : AInv s) (hb : BInv s) (hf : FInv s) (hm : MdInv s)
+    (hn : NoCreate s) :
     AInv (run s sched) ∧ BInv (run s sched) ∧ FInv (run s sched) ∧ NoCreate (run s sched) := by
   induction sched generalizing s with
   | nil => exact ⟨ha, hb, hf, hn⟩
@@ -680,77 +818,77 @@ theorem inv_run (s : State) (sched : List Tid) (ha : AInv s) (hb : BInv s) (hf :
     unfold run
     split
     · rename_i s' hs
-      exact ih s' (ainv_step s s' t ha hs) (binv_step s s' t ha hb hf (crok_of_nocreate s t hn) hs)
-        (finv_step s s' t hf hs) (nocreate_step s s' t hn hs)
-    · exact ih s ha hb hf hn
+      exact ih s' (ainv_step s s' t ha hs) (binv_step s s' t ha hb hf hm (crok_of_nocreate s t hn) hs)
+        (finv_step s s' t hf hs) (mdinv_step s s' t hm hs) (nocreate_step s s' t hn hs)
+    · exact ih s ha hb hf hm hn
 
-theorem livePc_startTh (c : Bool) (p : List Op) : livePc (startTh c p).pc = none := by
+theorem livePc_startTh (dc c : Bool) (p : List Op) : livePc (startTh dc c p).pc = none := by
   cases p
   · rfl
-  · simp only [startTh]; exact livePc_entry _ _
+  · simp only [startTh]; exact livePc_entry _ _ _
 
-theorem trPc_startTh (c : Bool) (p : List Op) : trPc (startTh c p).pc = none := by
-  cases h : trPc (startTh c p).pc with
+theorem trPc_startTh (dc c : Bool) (p : List Op) : trPc (startTh dc c p).pc = none := by
+  cases h : trPc (startTh dc c p).pc with
   | none => rfl
   | some x => have := trPc_holds _ _ h; simp [holds_startTh] at this
 
-theorem outs_startTh (c : Bool) (p : List Op) : (startTh c p).outs = [] := by
+theorem outs_startTh (dc c : Bool) (p : List Op) : (startTh dc c p).outs = [] := by
   cases p <;> rfl
 
-theorem pcRefs_startTh (c : Bool) (p : List Op) : pcRefs (startTh c p).pc = [] := by
+theorem pcRefs_startTh (dc c : Bool) (p : List Op) : pcRefs (startTh dc c p).pc = [] := by
   cases p
   · rfl
-  · simp only [startTh]; exact pcRefs_entry _ _
+  · simp only [startTh]; exact pcRefs_entry _ _ _
 
-theorem pcObjs_startTh (c : Bool) (p : List Op) : pcObjs (startTh c p).pc = [] := by
+theorem pcObjs_startTh (dc c : Bool) (p : List Op) : pcObjs (startTh dc c p).pc = [] := by
   cases p
   · rfl
-  · simp only [startTh]; exact pcObjs_entry _ _
+  · simp only [startTh]; exact pcObjs_entry _ _ _
 
-theorem binv_init (caches : Bool) (strong weak : AMap) (db : List Id) (fresh freq frac cc off : Nat)
+theorem binv_init (dc caches : Bool) (strong weak : AMap) (db : List Id) (fresh freq frac cc off : Nat)
     (pins : List Obj) (progs : Tid → List Op)
     (hu : ∀ i o p, aget strong i = some o → aget weak i = some p → o = p) :
-    BInv (mkInit caches strong weak db fresh freq frac cc off pins progs) := by
+    BInv (mkInit dc caches strong weak db fresh freq frac cc off pins progs) := by
   refine ⟨hu, ?_, ?_, ?_, ?_, ?_, ?_, ?_⟩
   · intro i o h; simp [mkInit] at h
   · intro t i o h
-    have : trPc (startTh caches (progs t)).pc = some (i, o) := h
+    have : trPc (startTh dc caches (progs t)).pc = some (i, o) := h
     simp [trPc_startTh] at this
-  · intro t; exact know_nonholds _ _ (holds_startTh caches (progs t))
+  · intro t; exact know_nonholds _ _ (holds_startTh dc caches (progs t))
   · intro t i o h
-    have : livePc (startTh caches (progs t)).pc = some (i, o) := h
+    have : livePc (startTh dc caches (progs t)).pc = some (i, o) := h
     simp [livePc_startTh] at this
   · intro t i o h
-    have : Out.obj i o ∈ (startTh caches (progs t)).outs := h
+    have : Out.obj i o ∈ (startTh dc caches (progs t)).outs := h
     simp [outs_startTh] at this
   · intro t o h
-    have : o ∈ pcRefs (startTh caches (progs t)).pc := h
+    have : o ∈ pcRefs (startTh dc caches (progs t)).pc := h
     simp [pcRefs_startTh] at this
   · intro t i o h
-    have : Out.obj i o ∈ (startTh caches (progs t)).outs := h
+    have : Out.obj i o ∈ (startTh dc caches (progs t)).outs := h
     simp [outs_startTh] at this
 
-theorem finv_init (caches : Bool) (strong weak : AMap) (db : List Id) (fresh freq frac cc off : Nat)
+theorem finv_init (dc caches : Bool) (strong weak : AMap) (db : List Id) (fresh freq frac cc off : Nat)
     (pins : List Obj) (progs : Tid → List Op)
     (h1 : ∀ o ∈ avals strong, o < fresh) (h2 : ∀ o ∈ avals weak, o < fresh) :
-    FInv (mkInit caches strong weak db fresh freq frac cc off pins progs) := by
+    FInv (mkInit dc caches strong weak db fresh freq frac cc off pins progs) := by
   refine ⟨h1, h2, ?_⟩
   intro t o h
-  have : o ∈ pcObjs (startTh caches (progs t)).pc := h
+  have : o ∈ pcObjs (startTh dc caches (progs t)).pc := h
   simp [pcObjs_startTh] at this
 
-theorem pcCreate_startTh (c : Bool) (p : List Op) (h : ∀ op ∈ p, isCreate op = false) :
-    thNoCreate (startTh c p) := by
+theorem pcCreate_startTh (dc c : Bool) (p : List Op) (h : ∀ op ∈ p, isCreate op = false) :
+    thNoCreate (startTh dc c p) := by
   cases p with
   | nil => simp [startTh, thNoCreate, pcCreate]
   | cons op rest =>
     simp only [startTh, thNoCreate]
-    exact ⟨pcCreate_entry _ _ (h op (by simp)), fun op' ho => h op' (by simp [ho])⟩
+    exact ⟨pcCreate_entry _ _ _ (h op (by simp)), fun op' ho => h op' (by simp [ho])⟩
 
-theorem nocreate_init (caches : Bool) (strong weak : AMap) (db : List Id) (fresh freq frac cc off : Nat)
+theorem nocreate_init (dc caches : Bool) (strong weak : AMap) (db : List Id) (fresh freq frac cc off : Nat)
     (pins : List Obj) (progs : Tid → List Op) (h : ∀ t, ∀ op ∈ progs t, isCreate op = false) :
-    NoCreate (mkInit caches strong weak db fresh freq frac cc off pins progs) :=
-  fun t => pcCreate_startTh caches (progs t) (h t)
+    NoCreate (mkInit dc caches strong weak db fresh freq frac cc off pins progs) :=
+  fun t => pcCreate_startTh dc caches (progs t) (h t)
 
 /-! ### no exception but NotFound -/
 def pcErr : Pc → Bool
@@ -785,27 +923,28 @@ theorem einv_step (s s' : State) (t : Tid) (ha : AInv s) (hb : BInv s) (hn : CrO
       simp_all [pcErr]
   · rw [step_th_ne s s' t u hs hu]; exact he u
 
-theorem einv_init (caches : Bool) (strong weak : AMap) (db : List Id) (fresh freq frac cc off : Nat)
-    (pins : List Obj) (progs : Tid → List Op) : EInv (mkInit caches strong weak db fresh freq frac cc off pins progs) := by
+theorem einv_init (dc caches : Bool) (strong weak : AMap) (db : List Id) (fresh freq frac cc off : Nat)
+    (pins : List Obj) (progs : Tid → List Op) : EInv (mkInit dc caches strong weak db fresh freq frac cc off pins progs) := by
   intro t
-  refine ⟨pcErr_nonholds _ (holds_startTh caches (progs t)), ?_⟩
+  refine ⟨pcErr_nonholds _ (holds_startTh dc caches (progs t)), ?_⟩
   intro e h
-  have : Out.exc e ∈ (startTh caches (progs t)).outs := h
+  have : Out.exc e ∈ (startTh dc caches (progs t)).outs := h
   simp [outs_startTh] at this
 
-theorem inv_run_e (s : State) (sched : List Tid) (ha : AInv s) (hb : BInv s) (hf : FInv s) (hn : NoCreate s)
-    (he : EInv s) : EInv (run s sched) := by
+theorem inv_run_e (s : State) (sched : List Tid) (ha : AInv s) (hb : BInv s) (hf : FInv s) (hm : MdInv s)
+    (hn : NoCreate s) (he : EInv s) : EInv (run s sched) := by
   induction sched generalizing s with
   | nil => exact he
   | cons t ts ih =>
     unfold run
     split
     · rename_i s' hs
-      exact ih s' (ainv_step s s' t ha hs) (binv_step s s' t ha hb hf (crok_of_nocreate s t hn) hs)
-        (finv_step s s' t hf hs) (nocreate_step s s' t hn hs) (einv_step s s' t ha hb (crok_of_nocreate s t hn) he hs)
-    · exact ih s ha hb hf hn he
+      exact ih s' (ainv_step s s' t ha hs) (binv_step s s' t ha hb hf hm (crok_of_nocreate s t hn) hs)
+        (finv_step s s' t hf hs) (mdinv_step s s' t hm hs) (nocreate_step s s' t hn hs) (einv_step s s' t ha hb (crok_of_nocreate s t hn) he hs)
+    · exact ih s ha hb hf hm hn he
 
-theorem reach_run (s : State) (sched : List Tid) (ha : AInv s) (hb : BInv s) (hf : FInv s) (hn : NoCreate s)
+theorem reach_run (s : State) (sched : List Tid) (ha : AInv s) (hb : BInv s) (hf : FInv s) (hm : MdInv s)
+    (hn : NoCreate s)
     (i : Id) (o : Obj) (hr : Reach s i o) (hal : Held s o) : Reach (run s sched) i o := by
   induction sched generalizing s with
   | nil => exact hr
@@ -813,9 +952,9 @@ theorem reach_run (s : State) (sched : List Tid) (ha : AInv s) (hb : BInv s) (hf
     unfold run
     split
     · rename_i s' hs
-      exact ih s' (ainv_step s s' t ha hs) (binv_step s s' t ha hb hf (crok_of_nocreate s t hn) hs)
-        (finv_step s s' t hf hs) (nocreate_step s s' t hn hs)
+      exact ih s' (ainv_step s s' t ha hs) (binv_step s s' t ha hb hf hm (crok_of_nocreate s t hn) hs)
+        (finv_step s s' t hf hs) (mdinv_step s s' t hm hs) (nocreate_step s s' t hn hs)
         (reach_step s s' t ha hb (crok_of_nocreate s t hn) hs i o hr hal) (held_step s s' t hs o hal)
-    · exact ih s ha hb hf hn hr hal
+    · exact ih s ha hb hf hm hn hr hal
 
 end SqlObjVerif.Conc
